@@ -36,5 +36,7 @@ C12 d7-lost-stop-notification.case c2183fb
 C16 d13-blocking-next-no-fetch.case f92182b
 C16 d14-skip-mode-duplicate.case f4dcbf9
 C16 d9-close-races-next.case 86608c2
+C16 d23-copy-of-parked-subscriber-threads.case 3558ad8
+C16 d23-copy-of-parked-subscriber-history.case 3558ad8
 LIST
 rm -rf /tmp/rv
